@@ -320,11 +320,20 @@ class CStr(Sym):
         out = []
         for ch in s.c:
             if _is_sym(ch):
-                if not E.branch(ch < 128):
-                    if enc == 'ascii':
-                        raise UnicodeEncodeError('ascii', u'?', 0, 1, 'ordinal not in range(128)')
-                    raise Unsupported('encode of non-ASCII symbolic char')
-                out.append(ch)
+                if E.branch(ch < 128):
+                    out.append(ch)
+                    continue
+                if enc == 'ascii':
+                    raise UnicodeEncodeError('ascii', u'?', 0, 1, 'ordinal not in range(128)')
+                if enc not in ('utf8',):
+                    raise Unsupported('encode(%s) of non-ASCII symbolic char' % encoding)
+                c = SInt(ch)
+                if E.branch(ch < 0x800):
+                    out += [((c // 64) + 0xC0).z, ((c % 64) + 0x80).z]
+                elif E.branch(z3.And(ch < 0x10000, z3.Or(ch < 0xD800, ch > 0xDFFF))):
+                    out += [((c // 4096) + 0xE0).z, (((c // 64) % 64) + 0x80).z, ((c % 64) + 0x80).z]
+                else:
+                    raise Unsupported('utf-8 encoding of astral / surrogate symbolic char')
             elif ch < 128:
                 out.append(ch)
             else:
